@@ -85,6 +85,17 @@ CHECKS["C13"] = dict(
     text="Design: file-system state machine for all flag / pre-existing-file / validation / outside-grid combinations. Code: the real binary (built from the working tree with the verif tag) runs on random multi-table sources; TLC decides from the recorded facts which files must exist (TargetPath on characters), which rows in which order each table must hold, the geometry class, and that each polygon row's geometry is the library's result for THAT file's tile matrix; 24-300 of the 2028 TLC path vectors are each run through the binary.",
     note="Trusted: TLC; the harness's direct library call as oracle (as the property states); DeepEqual geometry/attribute comparison; SQLite stub for libspatialite.")
 
+CHECKS["C14"] = dict(
+    category="model_checking", design_ref="DESIGN.md §7 C14",
+    technique="TLA+ definition of a true quadtree and of the validation's order of checks (TmsQuad.tla), TLC: all single-field perturbations at every level of an accepted set; real validation verdicts for the 14 built-in sets and ~2300 perturbed sets judged by TLC from an abstract projection of each document (TmsQuadTrace.tla); built-in verdicts also observed through the real binary",
+    text="For each of the 7 accepted built-in sets, 15 kinds of single-field perturbation are applied at every tile matrix; TLC computes the verdict the property demands from the harness's abstract projection (square, ids, origin/corner equality, doubling, cell ratio class, variable widths) and compares it with what DeviationStats + IsQuadTree answered (error / ok / panic); pixel size used vs cellSize/16 is checked for every matrix of every accepted set.",
+    note="Trusted: TLC; the abstract projection (exact rationals for the cell-size ratio); composition of the two library calls as in package main, cross-checked through the binary for built-ins.")
+CHECKS["C15"] = dict(
+    category="model_checking", design_ref="DESIGN.md §7 C15",
+    technique="integer TLA+ model of FromNative / ToNative / bounding box for both corner conventions checked exhaustively by TLC (TileAddr.tla); ~19000 records of the real functions on all built-in sets and matrices judged by TileAddrTrace.tla",
+    text="Design: every matrix up to 4x3, both corner conventions, 9 origins, every tile and 9 interior points: point-in-tile finds its tile, outside finds none, bounding box spans the corners. Code: for every built-in set, every matrix without variable widths, corner/border/sampled tiles x interior points, outside points, corner positions against origin + index x tile size in x,y order.",
+    note="Trusted: TLC; float tolerance 16 ulp + 1e-8 (the API rounds to 9 decimals).")
+
 NOT_YET = {}
 
 ALL = ["C%02d" % i for i in range(1, 19)]
